@@ -34,12 +34,12 @@ type jnode struct {
 	Obj  []jmember
 }
 
-func jS(s string) *jnode            { return &jnode{Kind: jStr, S: s} }
-func jN(raw string) *jnode          { return &jnode{Kind: jNum, Raw: raw} }
-func jB(b bool) *jnode              { return &jnode{Kind: jBool, B: b} }
-func jA(items ...*jnode) *jnode     { return &jnode{Kind: jArr, Arr: items} }
-func jRawLit(raw string) *jnode     { return &jnode{Kind: jRaw, Raw: raw} }
-func jNullNode() *jnode             { return &jnode{Kind: jNull} }
+func jS(s string) *jnode        { return &jnode{Kind: jStr, S: s} }
+func jN(raw string) *jnode      { return &jnode{Kind: jNum, Raw: raw} }
+func jB(b bool) *jnode          { return &jnode{Kind: jBool, B: b} }
+func jA(items ...*jnode) *jnode { return &jnode{Kind: jArr, Arr: items} }
+func jRawLit(raw string) *jnode { return &jnode{Kind: jRaw, Raw: raw} }
+func jNullNode() *jnode         { return &jnode{Kind: jNull} }
 func jO(kv ...any) *jnode { // jO("k", node, "k2", node2)
 	n := &jnode{Kind: jObj}
 	for i := 0; i+1 < len(kv); i += 2 {
